@@ -86,11 +86,11 @@ def gen_training(rng, kind=None):
             pool, encoding = CYR_POOL[:rng.randint(3, 8)], rng.choice(["utf-8", "cp1251"])
         kind2 = rng.choice(["mixed", "len_eq_ngram", "single_len"])
     elif kind == "non_nfc":
-        # text that is NOT in Unicode normal form C (harness/unicode_pool.py), utf-8: either random words over an alphabet in
+        # text that is NOT in Unicode normal form C (harness/unicode_pool.py), utf-8 / utf-16: either random words over an alphabet in
         # which a base letter, a combining mark and the precomposed letter (a singleton and its twin, Hangul jamo and the
         # syllable, a CJK compatibility ideograph and the unified one) are separate symbols, or whole words in both spellings
         # as different passwords with counts of their own
-        encoding = "utf-8"
+        encoding = rng.choice(["utf-8", "utf-8", "utf-16", "utf-16-le"])
         if rng.random() < 0.5:
             pool = unicode_pool.char_pool(rng)
             asize = 8
@@ -103,6 +103,12 @@ def gen_training(rng, kind=None):
             pws += [_word(rng, pool, rng.randint(ngram, ngram + 3)) for _ in range(rng.randint(0, 4))]
             rng.shuffle(pws)
             kind2 = "given"
+    elif kind == "blanks":
+        # pass phrases: blanks that str.strip() would remove (ASCII space, NO-BREAK SPACE, IDEOGRAPHIC SPACE) inside and at the end
+        # of n-grams; they are data like every other character (not in KINDS: drawn by the checks that name it)
+        pool, encoding = rng.choice(["a b", "ab " + unicode_pool.U("a0"), "a " + unicode_pool.U("3000") + "b1", "my dog"]), "utf-8"
+        asize = 8
+        kind2 = rng.choice(["mixed", "len_eq_ngram", "single_len", "long"])
     elif kind == "odd":
         # characters check_valid admits (NBSP, U+2029) or filters (U+001C), utf-8
         pool, encoding = ODD_POOL[:rng.choice([3, 4, 5])], "utf-8"
@@ -276,6 +282,26 @@ def session_on(T, seconds=0.2):
 
 # ---------------------------------------------------------------- the real trainer, in-process
 
+def wide_codec(enc):
+    """utf-16 / utf-32 and their -le / -be forms: the line feed is not the byte 0x0A and the file has ONE byte order mark"""
+    import codecs
+    try:
+        return codecs.lookup(enc).name.startswith(("utf-16", "utf-32"))
+    except LookupError:
+        return False
+
+
+def training_bytes(passwords, counts, enc):
+    """the bytes of a training file: one line per password (with its count in front when counts are given)"""
+    if wide_codec(enc):
+        return "".join(("%d " % counts[i] if counts else "") + p + "\n" for i, p in enumerate(passwords)).encode(enc)
+    out = []
+    for i, p in enumerate(passwords):
+        pre = ("%d " % counts[i]).encode("ascii") if counts else b""
+        out.append(pre + p.encode(enc, errors="surrogateescape") + b"\n")
+    return b"".join(out)
+
+
 class Trained:
     """What lib_trainer/run_trainer.py does for OMEN, with the same objects in
     the same order (pass 1 alphabet, pass 2 n-grams, smoothing, keyspace, pass 3
@@ -296,9 +322,7 @@ class Trained:
         counts = cfg.get("counts")
         pc = bool(counts)
         with open(tf, "wb") as f:
-            for i, p in enumerate(cfg["passwords"]):
-                pre = ("%d " % counts[i]).encode("ascii") if pc else b""
-                f.write(pre + p.encode(enc, errors="surrogateescape") + b"\n")
+            f.write(training_bytes(cfg["passwords"], counts if pc else None, enc))
         # pass 1
         fi = TrainerFileInput(tf, enc, pc)
         ag = AlphabetGenerator(cfg["alphabet_size"], cfg["ngram"])
